@@ -135,7 +135,7 @@ class Relations:
             self.log.call(rel, role, fn, args, kw, meta=None)
         return rel
 
-    def check(self, checkers, site_of=None, tol=None):
+    def check(self, checkers, mech=None):
         self.log.close()
         ctx = self.ctx
         for rel, evs in self.log.read():
@@ -164,6 +164,10 @@ class Relations:
                     ctx.count("relation.all_raise(skipped,C14)")
                 continue
             bad = checkers[kind](by_role, inst.get("meta") or {})
+            if bad and mech is not None:
+                m_ = mech(inst, bad)
+                if m_:
+                    bad = [(c_ + "/" + m_, w_ + " -- " + m_) for c_, w_ in bad]
             if inst.get("nt") is not None and not bad:
                 ctx.nontrivial(inst["nt"])
             site = inst.get("site") or inst["calls"][0][1]
